@@ -14,9 +14,15 @@
 """Subprocess support.
 """
 
+import re
 import sys
 
 import zope.testrunner.feature
+
+
+def _one_line(text):
+    """The report is line based: the parent splits it at CR and LF."""
+    return ' '.join(re.split('\r\n|\r|\n', text.strip()))
 
 
 class SubProcess(zope.testrunner.feature.Feature):
@@ -44,9 +50,9 @@ class SubProcess(zope.testrunner.feature.Feature):
               len(self.runner.failures), len(self.runner.errors),
               file=self.original_stderr)
         for test, exc_info in self.runner.failures:
-            print(' '.join(str(test).strip().split('\n')),
+            print(_one_line(str(test)),
                   file=self.original_stderr)
         for test, exc_info in self.runner.errors:
-            print(' '.join(str(test).strip().split('\n')),
+            print(_one_line(str(test)),
                   file=self.original_stderr)
         self.original_stderr.flush()
